@@ -21,14 +21,19 @@ MANIFEST = {
             'opened and compared with gfpx polynomials (oracle) and, for the operations with theorems, with the Z_p '
             'instance of the Coq model on the padded arrays (vm_compute).',
     'note': 'Oracle/correspondence-only (no Coq theorem): floordiv/mod/divmod, gcd, gcdext, invert, powmod/**, '
-            'is_irreducible, monic, reverse, lexicographic < <= > >=, if_else/if_swap, input/output; for these the result '
-            'and its padded length are checked against gfpx and closed-form length functions on every case run. '
-            'Quick tier: GF(2) all pairs of padded lists of length<=3 through every operation on m=1; GF(3) all pairs '
-            'through the ring operations/==, samples through the rest; GF(5) samples; GF(11), GF(101) random length<=8; '
-            'm=3 on samples. Small-field precondition failures (explicit AssertionError etc., documented "p must be '
-            'sufficiently large") are counted, not violations; silent wrong values and hangs are violations. '
-            'Message-size independence from values is checked on one batch (p=101, m=3). Trusted: Coq kernel, simulator, '
-            'gfpx as the specification.',
+            'is_irreducible, monic, reverse, lexicographic < <= > >=, if_else/if_swap, getitem, input/output; for these the '
+            'opened result and its padded length are checked against gfpx and closed-form length functions on every case. '
+            'Quick tier: GF(2) every pair of padded lists of length<=3 through every operation on m=1 (one public parameter '
+            'each); GF(3) 500 pairs through add/sub/mul/==/neg, samples through the rest; GF(5) samples; GF(11), GF(101) '
+            'random boundary-heavy lists of length<=8; m=3 (t=1, PRSS on and off) on samples over GF(5), GF(11), GF(101) only: '
+            'mpc.SecFld(p) is a prime field only while m < p, so GF(2)/GF(3) cannot be run with three parties. In the small-field '
+            'region (some padded length >= p; documented "p must be sufficiently large") explicit errors are counted, not '
+            'violations, and operations that may not terminate there are run on one representative each; silent wrong values, '
+            'hangs and escaped exceptions elsewhere are violations, confirmed in a fresh simulator before being reported. Nine '
+            'known findings (known_findings/C38.json), two of them defects of the gfpx oracle over GF(2) (evaluation and '
+            'reverse are then checked against independent references). Message-size traces are compared for two runs with equal '
+            'padded lengths and different values on one batch (p=101, m=3, operations without retry loops). Trusted: Coq kernel, '
+            'simulator, gfpx as the specification.',
     'technique': 'Coq proof on padded coefficient lists + simulator-run differential check against gfpx and the vm_compute model',
 }
 
@@ -64,7 +69,7 @@ class WatchedFifo:
         return self.fifo.deliver(net)
 
 
-def run_cases(ctx, m, t, no_prss, cases, case_coro, seed, per_case_s=5.0, want_log=False):
+def run_cases(ctx, m, t, no_prss, cases, case_coro, seed, per_case_s=3.0, want_log=False):
     """cases: list of JSON-able case descriptions; case_coro(mpc, mods, pid, state, case) -> result.
     Returns list of per-case results: value | ('EXC', name) | ('HANG', info) | ('DIVERGE', per-party values)."""
     from lib.sim import Sim
@@ -171,14 +176,25 @@ RING = ('add', 'sub', 'mul', 'eq', 'neg')
 MODEL_OPS = ('add', 'sub', 'neg', 'mul', 'scale', 'call_pub', 'degree', 'lshift', 'rshift', 'truncate', 'eq')
 
 
-def expected_len(op, la, lb, k):
-    """Closed form for the PADDED result length (None: not a polynomial result / not checked)."""
+def eff_lens(p, a, b, op):
+    """Operand lengths that are public: padded length of a secure operand, stripped length of a public gfpx operand."""
+    la, lb = len(a), (len(b) if b is not None else 0)
+    if op.endswith('_pub') and b is not None:
+        if op[0] == 'r' and op != 'reverse_pub':
+            la = len(strip(a))
+        else:
+            lb = len(strip(b))
+    return la, lb
+
+
+def expected_len(p, op, la, lb, k):
+    """Closed form for the PADDED result length (None: not a polynomial result / no closed form checked)."""
     if op in ('add', 'add_pub', 'radd_pub', 's_add', 'sub', 'sub_pub', 'rsub_pub', 's_sub', 'if_else', 'gcd'):
         return max(la, lb)
     if op in ('mul', 'mul_pub', 'rmul_pub', 's_mul'):
         return 0 if la == 0 or lb == 0 else la + lb - 1
     if op == 'scale':
-        return la if k else 0      # f * poly(0): the public operand is the empty array
+        return la if k % p else 0      # f * poly(0): the public operand is the empty array
     if op in ('neg', 'pos', 'copy', 'monic', 'inout', 'reverse_none', 'reverse_sec'):
         return la
     if op == 'lshift':
@@ -187,14 +203,14 @@ def expected_len(op, la, lb, k):
         return max(la - k, 0)
     if op == 'truncate':
         return min(la, k)
-    if op in ('floordiv', 'floordiv_pub'):
+    if op in ('floordiv', 'floordiv_pub', 'rfloordiv_pub'):
         return la
-    if op in ('mod', 'mod_pub', 's_mod'):
-        return lb - 1
+    if op in ('mod', 'mod_pub', 'rmod_pub', 's_mod'):
+        return lb - 1 if la else 0
     if op == 'reverse_pub':
         return k + 1
     if op == 'powmod':
-        return 1 if k == 0 else lb - 1
+        return 1 if k == 0 else (None if k < 0 else (la if k == 1 or la == 0 else lb - 1))
     if op == 'pow':
         return 1 if k == 0 else (k * (la - 1) + 1 if la else 0)
     return None
@@ -254,7 +270,9 @@ def make_case_coro(p):
         if op == 'is_irreducible':
             return await out_elt(secpoly.is_irreducible(fa))
         if op == 'inout':
-            x = mpc.input(fa, senders=0)
+            # mpc.input takes the sender's private value: a polynomial known to party 0 (padded array as given)
+            priv = secpoly(np.array(a, dtype=object), sectype=secfld) if a else secpoly(np.array([], dtype=object), sectype=secfld)
+            x = mpc.input(priv, senders=0)
             y = await mpc.output(x)
             y2 = (await mpc.output([fa, fa]))[1]
             return ('poly2', [int(c) for c in y], [int(c) for c in y2], len(x.share))
@@ -454,10 +472,15 @@ def small_field(p, a, b, op, k):
     return n >= p
 
 
+DIV_OPS = ('floordiv', 'floordiv_pub', 'rfloordiv_pub', 'mod', 'mod_pub', 'rmod_pub', 's_mod', 'divmod', 'rdivmod_pub')
+
+
 def known_class(p, a, b, op, k, want):
     """Input classes on which this check found the implementation to disagree with gfpx (known_findings/C38.json).
     The class name is part of the violation signature."""
     za = not strip(a) and len(a) > 0
+    if b is not None and len(a) == 0 and len(b) == 0 and op in ('eq', 'ne', 'lt', 'le', 'gt', 'ge', 'gcdext', 'if_else', 'if_swap'):
+        return 'empty-operands'           # F-C38-9
     if op == 'monic' and za:
         return 'zero-polynomial'          # F-C38-1: reciprocal(0) never terminates
     if op in ('gcd', 'gcdext') and not strip(a) and not strip(b or []) and max(len(a), len(b or [])) > 0:
@@ -466,13 +489,20 @@ def known_class(p, a, b, op, k, want):
         return 'index>=len'               # F-C38-2: IndexError raised asynchronously
     if op == 'is_irreducible' and za and len(a) >= 2:
         return 'zero-polynomial'          # F-C38-3: division by the zero modulus
-    if op == 'is_irreducible' and want == ('elt', 1) and len(a) - 1 >= 2 * (len(strip(a)) - 1):
-        return 'padded-irreducible'       # F-C38-5: D//2 iterations with D the public bound
     if p == 2 and (op.endswith('_pub') or op == 'scale') and op not in ('call_pub', 'reverse_pub'):
         return 'gf2-public-operand'       # F-C38-8: secpoly(BinaryPolynomial) holds polynomial objects as coefficients
+    if p == 2 and (op in DIV_OPS or (op == 'powmod' and abs(k) >= 2) or (op == 'is_irreducible' and len(a) >= 3)):
+        return 'gf2-division'             # F-C38-8: _div feeds lists to BinaryPolynomial._invert (int representation)
+    if op == 'is_irreducible' and want == ('elt', 1) and len(a) - 1 >= 2 * (len(strip(a)) - 1):
+        return 'padded-irreducible'       # F-C38-5: D//2 iterations with D the public bound
     if op == 'gcdext':
         return 'gcdext'                   # F-C38-7 candidates: cofactors (classified after comparison)
     return None
+
+
+def ref_reverse(a, d):
+    a = (strip(a)[:d + 1] + [0] * (d + 1))[:d + 1]
+    return strip(a[::-1])
 
 
 def horner(p, a, x):
@@ -564,21 +594,22 @@ def run(ctx):
 
     ring_ops = [o for o in OPS if o[0] in RING]
     plan = []
-    # GF(2): all pairs, all ops, m=1
+    # GF(2): all pairs, all ops, m=1 (NB: mpc.SecFld(p) is a prime field only while m < p or t = 0; with m=3, t=1
+    # SecFld(2) and SecFld(3) are extension fields, which secpols does not support: m=3 runs use p >= 5)
     L2 = all_lists(2, 3)
     pairs2 = [(a, b) for a in L2 for b in L2]
-    plan.append((2, 1, 0, False, cases_for(pairs2, OPS, kmax=None if thorough else 2), True))
-    # GF(3): all pairs ring ops; sample all ops
+    plan.append((2, 1, 0, False, cases_for(pairs2, OPS, kmax=None if thorough else 1), True))
     L3 = all_lists(3, 3)
     pairs3 = [(a, b) for a in L3 for b in L3]
     plan.append((3, 1, 0, False, cases_for(pairs3 if thorough else rng.sample(pairs3, 500), ring_ops), thorough))
-    plan.append((3, 1, 0, False, cases_for(rng.sample(pairs3, ctx.n(40, 400)), OPS, kmax=2), False))
+    plan.append((3, 1, 0, False, cases_for(rng.sample(pairs3, ctx.n(30, 400)), OPS, kmax=2), False))
     L5 = all_lists(5, 3)
-    plan.append((5, 1, 0, False, cases_for([(rng.choice(L5), rng.choice(L5)) for _ in range(ctx.n(40, 1500))], OPS, kmax=2), False))
-    for p in (11, 101):
-        pairs = []
-        for _ in range(ctx.n(24, 300)):
-            a, b = rand_list(rng, p, 8), rand_list(rng, p, 8)
+    plan.append((5, 1, 0, False, cases_for([(rng.choice(L5), rng.choice(L5)) for _ in range(ctx.n(30, 1500))], OPS, kmax=2), False))
+
+    def rand_pairs(p, cnt, maxlen):
+        pairs = [([], []), ([0, 0], [0]), ([1, 1, 0], [2, 0, 1, 0, 0])]
+        for _ in range(cnt):
+            a, b = rand_list(rng, p, maxlen), rand_list(rng, p, maxlen)
             kind = rng.randrange(6)
             if kind == 0:
                 b = list(a)
@@ -588,17 +619,14 @@ def run(ctx):
                 c = rand_list(rng, p, 3)
                 a, b = polymul(p, strip(a)[:4], strip(c)), polymul(p, strip(b)[:4], strip(c)) + [0]   # common factor
             pairs.append((a, b))
-        plan.append((p, 1, 0, False, cases_for(pairs, OPS, kmax=2), False))
+        return pairs
+    plan.append((11, 1, 0, False, cases_for(rand_pairs(11, ctx.n(12, 300), 8), OPS, kmax=2), False))
+    plan.append((101, 1, 0, False, cases_for(rand_pairs(101, ctx.n(16, 300), 8), OPS, kmax=2), False))
     # m = 3
-    for p, cnt in ((2, 6), (3, 8), (5, 8), (11, 8), (101, 10)):
-        Lp = all_lists(p, 3) if p <= 5 else None
-        pairs = [((rng.choice(Lp), rng.choice(Lp)) if Lp else (rand_list(rng, p, 6), rand_list(rng, p, 6)))
-                 for _ in range(ctx.n(cnt, 10 * cnt))]
-        plan.append((p, 3, 1, False, cases_for(pairs, OPS, kmax=1), False))
-    pairs = [(rand_list(rng, 101, 5), rand_list(rng, 101, 5)) for _ in range(ctx.n(5, 40))]
-    plan.append((101, 3, 1, True, cases_for(pairs, OPS, kmax=1), False))
-    pairs = [(rng.choice(L3), rng.choice(L3)) for _ in range(ctx.n(4, 40))]
-    plan.append((3, 3, 1, True, cases_for(pairs, OPS, kmax=1), False))
+    plan.append((5, 3, 1, False, cases_for([(rng.choice(L5), rng.choice(L5)) for _ in range(ctx.n(5, 80))], OPS, kmax=1), False))
+    plan.append((11, 3, 1, False, cases_for(rand_pairs(11, ctx.n(3, 80), 5), OPS, kmax=1), False))
+    plan.append((101, 3, 1, False, cases_for(rand_pairs(101, ctx.n(4, 100), 6), OPS, kmax=1), False))
+    plan.append((101, 3, 1, True, cases_for(rand_pairs(101, ctx.n(1, 40), 5), OPS, kmax=1), False))
 
     model_cases = []
     precond = {}
@@ -606,9 +634,50 @@ def run(ctx):
     lens_seen = {}      # (op, k, la, lb) -> {padded result lengths: witness}
     skipped = {}
     exhaustive_done = []
+    confirmations = [0]
 
     def skip(why):
         skipped[why] = skipped.get(why, 0) + 1
+
+    def judge(p, cfg, c, want, cls, sf, got):
+        """-> ('ok', lens) | ('error-input',) | ('precond', class) | ('viol', sig, detail)"""
+        (pi, a, b, op, k) = c
+        la, lb = eff_lens(p, a, b, op)
+        det = {'p': p, 'a': a, 'b': b, 'op': op, 'k': k, 'cfg': cfg}
+        g, lens = canon(got)
+        det.update({'got': g, 'want_gfpx': want})
+        pre = []
+        # gfpx is the specification, but two of its GF(2) methods are themselves wrong (BinaryPolynomial.__call__ at
+        # even x, BinaryPolynomial._reverse after truncation): use independent references there, report the disagreement
+        ref = None
+        if op in ('call_pub', 'call_sec'):
+            ref = ('elt', horner(p, strip(a), k))
+        elif op == 'reverse_pub':
+            ref = ('poly', ref_reverse(a, k))
+        if ref is not None and ref != want:
+            pre.append(('secpoly-%s differs-from-gfpx gfpx-%s-gf%d' % (op, op.split('_')[0], p), dict(det, reference=ref)))
+            want = ref
+        bad = isinstance(g, tuple) and len(g) > 0 and g[0] in ('EXC', 'HANG', 'DIVERGE')
+        if bad and want[0] == 'EXC' and g[0] == 'EXC':
+            return ('error-input', pre)
+        if bad or want[0] == 'EXC' or g != want:
+            outcome = g[0].lower() if bad else 'wrong'
+            if cls == 'gcdext' and not bad and g[0] == 'polys' and g[1][0] == want[1][0]:
+                u, v = g[1][1], g[1][2]
+                lhs = strip([(x + y) % p for x, y in itertools.zip_longest(polymul(p, u, strip(a)), polymul(p, v, strip(b)), fillvalue=0)])
+                cls = 'cofactors-differ bezout=%s' % (lhs == g[1][0])
+            elif cls == 'gcdext':
+                cls = None
+            if sf and bad and g[0] != 'DIVERGE' and cls is None:
+                return ('precond', '%s GF(%d) lens=(%d,%d): %s' % (op, p, la, lb, g[1] if g[0] == 'EXC' else 'no result'), pre)
+            if cls is None and sf:
+                cls = 'small-field'
+            return ('viol', 'secpoly-%s %s%s GF(%d) lens=(%d,%d)' % (op, outcome, ' ' + cls if cls else '', p, la, lb), det, pre)
+        if lens is not None:
+            el = expected_len(p, op, la, lb, k)
+            if el is not None and len(lens) == 1 and lens[0] != el:
+                return ('viol', 'secpoly-length %s' % op, dict(det, padded_len=lens, expected=el, public_lens=[la, lb]), pre)
+        return ('ok', lens, pre)
 
     for (p, m, t, no_prss, cases, exhaustive) in plan:
         t1 = time.time()
@@ -623,72 +692,56 @@ def run(ctx):
             cls = known_class(p, a, bb, op, k, want)
             sf = small_field(p, a, bb, op, k)
             # keep the number of runs that end in a hang / escaped exception (each costs a simulator restart) small:
-            # a few representatives per known failing class and per small-field class, on m=1 only
-            costly = (cls in ('zero-polynomial', 'index>=len')) or (cls == 'gf2-public-operand' and op not in
-                      ('add_pub', 'radd_pub', 'sub_pub', 'rsub_pub', 'mul_pub', 'rmul_pub', 'scale')) or (sf and op in HANG_PRONE)
+            # one representative per (known failing class, operation) and per small-field operation, on m=1 only
+            costly = (cls in ('zero-polynomial', 'index>=len', 'empty-operands', 'gf2-division')) or \
+                     (cls == 'gf2-public-operand' and op not in ('add_pub', 'radd_pub', 'sub_pub', 'rsub_pub', 'mul_pub', 'rmul_pub', 'scale')) or \
+                     (sf and op in HANG_PRONE)
             if costly:
                 tag = (cls if cls and cls != 'gcdext' else 'small-field', op)
-                if m == 1 and seen_cls.get(tag, 0) < 1 and sum(seen_cls.values()) < 40:
+                if m == 1 and seen_cls.get(tag, 0) < 1 and sum(seen_cls.values()) < 60:
                     seen_cls[tag] = seen_cls.get(tag, 0) + 1
                 else:
-                    skip('known failing class %s' % cls if cls and cls != 'gcdext' else
-                         'small-field region (a padded length >= p), operation may not terminate')
+                    skip(('known failing class %s' % cls) if cls and cls != 'gcdext' else
+                         'small-field region (a padded length >= p): operation may not terminate')
                     continue
             todo.append((pi, a, bb, op, k))
             meta.append((want, cls, sf))
-        res = run_cases(ctx, m, t, no_prss, todo, make_case_coro(p), seed=ctx.seed + p + 7 * m)
+        coro = make_case_coro(p)
+        seed = ctx.seed + p + 7 * m
+        res = run_cases(ctx, m, t, no_prss, todo, coro, seed=seed)
         cfg = 'm=%d%s' % (m, ' no-prss' if no_prss else '')
         for c, (want, cls, sf), got in zip(todo, meta, res):
             (pi, a, b, op, k) = c
-            la, lb = len(a), (len(b) if b is not None else 0)
+            v = judge(p, cfg, c, want, cls, sf, got)
+            if v[0] == 'viol' and confirmations[0] < 40:
+                # confirm in isolation (fresh simulator): an earlier exception in the same batch must not be blamed on this case
+                confirmations[0] += 1
+                got = run_cases(ctx, m, t, no_prss, [c], coro, seed=seed)[0]
+                v = judge(p, cfg, c, want, cls, sf, got)
             key = {'p': p, 'a': a, 'b': b, 'op': op, 'k': k, 'cfg': cfg}
-            det = dict(key)
+            for (sig, det) in v[-1]:
+                ctx.violation(sig, det)
             padded = (len(a) != len(strip(a))) or (b is not None and len(b) != len(strip(b)))
             kind = '%s GF(%d)%s' % (op, p, ' ' + cfg if m > 1 else '')
-            g, lens = canon(got)
-            det.update({'got': g, 'want_gfpx': want})
-            if op in ('call_pub', 'call_sec'):
-                # gfpx is the specification, but BinaryPolynomial.__call__ is itself wrong at even x (returns 0
-                # instead of the constant coefficient): evaluate independently and report the gfpx disagreement
-                hw = ('elt', horner(p, strip(a), k))
-                if hw != want:
-                    ctx.violation('secpoly-%s differs-from-gfpx gfpx-call-gf%d' % (op, p), dict(det, horner=hw))
-                    want = hw
-            bad = isinstance(g, tuple) and g and g[0] in ('EXC', 'HANG', 'DIVERGE')
-            if bad and want[0] == 'EXC' and g[0] == 'EXC':
+            if v[0] == 'error-input':
                 ctx.case(key, nontrivial=False, kind='error-inputs GF(%d)' % p)
-                continue
-            wrong = bad or (want[0] == 'EXC') or g != want
-            if wrong:
-                outcome = g[0].lower() if bad else 'wrong'
-                if cls == 'gcdext' and not bad and g[0] == 'polys' and g[1][0] == want[1][0]:
-                    u, v = g[1][1], g[1][2]
-                    lhs = strip([(x + y) % p for x, y in itertools.zip_longest(polymul(p, u, strip(a)), polymul(p, v, strip(b)), fillvalue=0)])
-                    cls = 'cofactors-differ bezout=%s' % (lhs == g[1][0])
-                elif cls == 'gcdext':
-                    cls = None
-                if sf and bad and g[0] != 'DIVERGE' and cls is None:
-                    pk = '%s GF(%d) lens=(%d,%d): %s' % (op, p, la, lb, g[1] if g[0] == 'EXC' else 'no result')
-                    precond[pk] = precond.get(pk, 0) + 1
-                    ctx.case(key, nontrivial=False, kind='precondition-error GF(%d)' % p)
-                    continue
-                if cls is None and sf:
-                    cls = 'small-field'
-                ctx.violation('secpoly-%s %s%s GF(%d) lens=(%d,%d)' % (op, outcome, ' ' + cls if cls else '', p, la, lb), det)
+            elif v[0] == 'precond':
+                precond[v[1]] = precond.get(v[1], 0) + 1
+                ctx.case(key, nontrivial=False, kind='precondition-error GF(%d)' % p)
+            elif v[0] == 'viol':
+                ctx.violation(v[1], v[2])
                 ctx.case(key, nontrivial=True, kind='failing ' + op)
-                continue
-            # padded result length: public function of the operand lengths (closed forms + constancy)
-            if lens is not None:
-                el = expected_len(op, la, lb, k)
-                if el is not None and len(lens) == 1 and lens[0] != el:
-                    ctx.violation('secpoly-length %s' % op, dict(det, padded_len=lens, expected=el))
-                s_ = lens_seen.setdefault((op, k, la, lb), {})
-                s_.setdefault(tuple(lens), (a, b))
-                if len(s_) > 1:
-                    ctx.violation('secpoly-length-leak %s' % op, dict(det, lengths_and_witnesses={str(x): y for x, y in s_.items()}))
-            ctx.case(key, nontrivial=padded or op not in RING, kind=kind)
-            if op in MODEL_OPS and got[0] in ('poly', 'elt') and (op != 'scale' or p != 2):
-                model_cases.append((op, p, a, b, k, got[1]))
+            else:
+                lens = v[1]
+                if lens is not None:
+                    la, lb = eff_lens(p, a, b, op)
+                    s_ = lens_seen.setdefault((p if op == 'scale' else 0, op, k, la, lb), {})
+                    s_.setdefault(tuple(lens), (a, b))
+                    if len(s_) > 1:
+                        ctx.violation('secpoly-length-leak %s' % op, dict(key, lengths_and_witnesses={str(x): y for x, y in s_.items()}))
+                ctx.case(key, nontrivial=padded or op not in RING, kind=kind)
+                if op in MODEL_OPS and got[0] in ('poly', 'elt') and (op != 'scale' or p != 2):
+                    model_cases.append((op, p, a, b, k, got[1]))
         if exhaustive:
             exhaustive_done.append('GF(%d) m=%d: %d cases' % (p, m, len(todo)))
         ctx.log('GF(%d) m=%d t=%d no_prss=%s: %d cases in %.1fs' % (p, m, t, no_prss, len(todo), time.time() - t1))
@@ -696,6 +749,7 @@ def run(ctx):
     ctx.extra['exhaustive_subspaces'] = exhaustive_done
     ctx.extra['padded_length_classes_checked'] = len(lens_seen)
     ctx.extra['skipped_cases'] = skipped
+    ctx.extra['violations_confirmed_in_isolation'] = confirmations[0]
     if precond:
         ctx.notes.append('explicit errors / no result in the small-field region (a padded length >= p; documented '
                          'precondition, not violations), class: count = %s' % dict(sorted(precond.items())[:80]))
@@ -773,8 +827,8 @@ def model_compare(ctx, ok, model_cases):
     if not ok:
         return
     rng = ctx.rng
-    if len(model_cases) > 1500:
-        model_cases = rng.sample(model_cases, 1500)
+    if len(model_cases) > ctx.n(700, 6000):
+        model_cases = rng.sample(model_cases, ctx.n(700, 6000))
     exprs = []
     for (op, p, a, b, k, got) in model_cases:
         P, A = zlit(p), zlist(a)
